@@ -1,7 +1,8 @@
 (* C06 — text is delivered only if its whole payload is well-formed UTF-8.
    Only statements, closed by [exact]; proofs live in Proofs/. *)
 From Coq Require Import ZArith List.
-From WS Require Import Base.Bytes Spec.Utf8 Gen.GenUtils Proofs.Utf8Proof.
+From WS Require Import Base.Res Base.Bytes Spec.Frame Spec.Utf8 Spec.Legal Gen.GenUtils Model.Recv Model.Conn
+  Proofs.Utf8Proof Proofs.RecvSpec Proofs.ConnSpec Proofs.ConnProof.
 Import ListNotations.
 Open Scope Z_scope.
 
@@ -10,6 +11,24 @@ Open Scope Z_scope.
 Theorem C06_validator : forall l, bytes_ok l -> validate_utf8 l = wf_utf8 l.
 Proof. exact validator_correct. Qed.
 Print Assumptions C06_validator.
+
+(* Validity is judged on the REASSEMBLED message (a code point split across fragments is
+   accepted), an ill-formed text message raises the payload exception and nothing is
+   delivered, and with validation off (skip = true) the bytes pass through unchanged:
+   [judge_msg skip (op, d)] is [OFail Payload] exactly when op is text, validation is on and
+   [wf_utf8 d] is false, else [ODeliver op 1 d]. *)
+Theorem C06_message : forall skip conn fs,
+  Forall abnf_ok fs -> frames_legal skip fs = true -> no_close fs = true ->
+  filter is_data_obs (run_frames false skip false conn cf_init fs)
+  = map (judge_msg skip) (reassemble None (map wframe_of fs)).
+Proof. exact ConnProof.C04_reassembly. Qed.
+Print Assumptions C06_message.
+
+(* a close reason that is not well-formed UTF-8 makes the frame illegal => protocol exception *)
+Theorem C06_close_reason : forall f, fields_ok f ->
+  frame_verdict true f = Illegal -> code_verdict false f = Raise Protocol.
+Proof. exact C05_frame_sound. Qed.
+Print Assumptions C06_close_reason.
 
 (* non-vacuity / sanity: a 4-byte scalar, a truncated one, a surrogate, an overlong *)
 Example C06_ex_accept : validate_utf8 [240; 144; 128; 128; 226; 130; 172; 65] = true.
